@@ -1377,6 +1377,44 @@ def inline_new_constants (tree, inv):
     elif isinstance(s, FUNC): R(None).visit(s)
   return n
 
+# ---------------------------------------------------------------- N6 function factories
+def instantiate_factories (tree, inv):
+  """NAME = F(a, b) at module level, where F is a *new* module function of the shape `def F(p, q): [docstring]; def G(...): ...;
+  return G` and the arguments are plain names / attribute chains / literals: NAME becomes an ordinary function - G's body with
+  F's parameters replaced by the arguments.  (G must not re-bind F's parameters; F's parameters must be plain positional.)"""
+  known = set(inv.get('<module>', ())) | set(k for k in inv if not k.startswith('<'))
+  facts = {}
+  for s in tree.body:
+    if isinstance(s, FUNC) and s.name not in inv:
+      body = [b for b in s.body if not (isinstance(b, ast.Expr) and isinstance(b.value, ast.Constant) and isinstance(b.value.value, str))]
+      a = s.args
+      if len(body) == 2 and isinstance(body[0], ast.FunctionDef) and isinstance(body[1], ast.Return) and isinstance(body[1].value, ast.Name) and body[1].value.id == body[0].name \
+         and not (a.vararg or a.kwarg or a.kwonlyargs or a.posonlyargs or a.defaults) and not body[0].decorator_list:
+        ps = [x.arg for x in a.args]
+        inner = body[0]
+        bound_inner = set(x.id for x in ast.walk(inner) if isinstance(x, ast.Name) and isinstance(x.ctx, (ast.Store, ast.Del))) | set(x.arg for x in ast.walk(inner.args) if isinstance(x, ast.arg))
+        if not (set(ps) & bound_inner) and not any(isinstance(x, (ast.Global, ast.Nonlocal)) for x in ast.walk(inner)): facts[s.name] = (ps, inner)
+  if not facts: return 0
+  n = 0
+  def arg_ok (e):
+    if isinstance(e, ast.Constant): return True
+    while isinstance(e, ast.Attribute): e = e.value
+    return isinstance(e, ast.Name)
+  out = []
+  for s in tree.body:
+    if isinstance(s, ast.Assign) and len(s.targets) == 1 and isinstance(s.targets[0], ast.Name) and isinstance(s.value, ast.Call) and isinstance(s.value.func, ast.Name) \
+       and s.value.func.id in facts and not s.value.keywords and all(arg_ok(x) for x in s.value.args) and len(s.value.args) == len(facts[s.value.func.id][0]):
+      ps, inner = facts[s.value.func.id]
+      fn = copy.deepcopy(inner)
+      fn.name = s.targets[0].id
+      m = dict(zip(ps, s.value.args))
+      fn.body = [_Subst(m).visit(b) for b in fn.body]
+      ast.copy_location(fn, s); ast.fix_missing_locations(fn)
+      out.append(fn); n += 1
+    else: out.append(s)
+  tree.body = out
+  return n
+
 # ---------------------------------------------------------------- driver
 def normalize_module (tree, modname, stats=None, external=None, external_def=None):
   inv = inventory().get(modname)
@@ -1392,6 +1430,7 @@ def normalize_module (tree, modname, stats=None, external=None, external_def=Non
     inv = None          # nothing new in this module: analysed as written
   if inv is not None:
     info['constants'] = inline_new_constants(tree, inv)
+    info['factories'] = instantiate_factories(tree, inv)
     il = Inliner(tree, inv, external_def, external)
     il.run(); info['inlined'] = il.inlined
     # a new helper all of whose uses in this module were inlined is no longer a unit of its own
